@@ -431,7 +431,7 @@ let run (lineno : int) (lbc : str -> n list) ofit (args : string array) (impl : 
         | Some (_, b) when not (String.contains b 'P') -> check_builtin_mismatch lbc (dopts (f 1)) (f 2 = "1") (ds (f 3)) b
         | _ -> ())
    | _ -> ());
-  if List.exists bad ps && not (f 0 = "of" && impl = "ERR") then ()
+  if List.exists bad ps && not ((f 0 = "of" || f 0 = "ofu") && impl = "ERR") then ()
   else begin
     check_records recf;
     match f 0 with
@@ -444,6 +444,11 @@ let run (lineno : int) (lbc : str -> n list) ofit (args : string array) (impl : 
                           else say "C10" "FAIL" ("well-formed text: expected " ^ dec_of_n (sum_cw v))
               | None -> say "C10" "ok" "not-wf")
     | "ff" | "of" -> check_frag_op (f 0) f impl
+    | "ofu" ->
+        if impl = "ERR" then say "C04" "FAIL" "optimal-fit reported overflow although all widths and penalties are usize-valued"
+        else (match partition_ok (List.length (dlist (f 1))) (dgroups impl) with
+              | None -> say "C06" "ok" "usize"
+              | Some why -> say "C06" "FAIL" why)
     | "ffx" | "ofx" ->
         (* arbitrary doubles: the partition shape must hold whenever lines are returned *)
         if impl = "ERR" then say "C06" "skip" "overflow error"
